@@ -264,12 +264,13 @@ def estimate_contract():
 
 def table():
     C = Contract
-    return {(MOD, "construct_mapping"): C(MOD, "construct_mapping", None, summary=construct_mapping_summary),
-            (MOD, "find_ub_of_min_distortion"): C(MOD, "find_ub_of_min_distortion", None, summary=ub_min_summary),
-            (MOD, "find_ub"): C(MOD, "find_ub", None, summary=find_ub_summary),
-            (MOD, "find_lb"): C(MOD, "find_lb", None, summary=find_lb_summary),
-            (MOD, "find_largest_size_bounded_curvature"): C(MOD, "find_largest_size_bounded_curvature", None, summary=curvature_summary),
-            (MOD, "confirm_lb_using_bounded_curvature"): C(MOD, "confirm_lb_using_bounded_curvature", None, summary=confirm_summary)}
+    # `covers`: the parameters each callee's own contract was verified for - a caller that passes anything else is outside it
+    return {(MOD, "construct_mapping"): C(MOD, "construct_mapping", None, summary=construct_mapping_summary, covers=("DX", "DY", "pi")),
+            (MOD, "find_ub_of_min_distortion"): C(MOD, "find_ub_of_min_distortion", None, summary=ub_min_summary, covers=("DX", "DY", "mapping_sample_size_order", "goal_distortion")),
+            (MOD, "find_ub"): C(MOD, "find_ub", None, summary=find_ub_summary, covers=("DX", "DY", "mapping_sample_size_order", "double_lb")),
+            (MOD, "find_lb"): C(MOD, "find_lb", None, summary=find_lb_summary, covers=("DX", "DY")),
+            (MOD, "find_largest_size_bounded_curvature"): C(MOD, "find_largest_size_bounded_curvature", None, summary=curvature_summary, covers=("DX", "diam_X", "d")),
+            (MOD, "confirm_lb_using_bounded_curvature"): C(MOD, "confirm_lb_using_bounded_curvature", None, summary=confirm_summary, covers=("d", "K", "DY", "max_diam"))}
 
 
 def all_contracts(tier):
